@@ -60,6 +60,33 @@ def _expand(item):
     return out, viols
 
 
+PER_KEY_CAP = 2000
+
+
+class _CappedViols(list):
+    """Breadth-first order = shortest first: per violation key only the first PER_KEY_CAP cases are kept
+    (a broken tree can produce millions of cases of one key; carrying them all made the check run for
+    an hour instead of reporting).  len() still counts every raw violation."""
+
+    def __init__(self):
+        super().__init__()
+        self.per_key = {}
+        self.dropped = 0
+
+    def extend(self, vs):
+        for v in vs:
+            k = v["key"] if isinstance(v, dict) else v.key
+            n = self.per_key.get(k, 0) + 1
+            self.per_key[k] = n
+            if n <= PER_KEY_CAP:
+                list.append(self, v)
+            else:
+                self.dropped += 1
+
+    def __len__(self):
+        return list.__len__(self) + self.dropped
+
+
 def bfs(factory, depth, ctx, budget_s=None, chunk=8, max_states=None):
     """Returns dict(states, transitions, depth_completed, exhaustive, samples, outcomes)."""
     global _FACTORY, _H
@@ -74,7 +101,7 @@ def bfs(factory, depth, ctx, budget_s=None, chunk=8, max_states=None):
     capped = None
     t0 = time.time()
     level_sizes = []
-    all_viols = []
+    all_viols = _CappedViols()
     sample_hist = []
     pruned = 0
     for d in range(1, depth + 1):
@@ -117,6 +144,7 @@ def bfs(factory, depth, ctx, budget_s=None, chunk=8, max_states=None):
         "exhaustive": capped is None,
         "level_sizes": level_sizes,
         "violations": all_viols,
+        "violations_not_kept_over_per_key_cap": all_viols.dropped,
         "sample_histories": sample_hist,
         "frontier_left": len(frontier) if completed == depth else 0,
         "pruned_after_violation": pruned,
